@@ -165,6 +165,7 @@ theorem applyRecord_inv (E : Env σ) (cfg : RCfg) (w : World σ) (r : Rec) (h : 
         · split
           · exact inv_log _ _ (by intro i h; cases h) h
           · split <;> exact inv_log _ _ (by intro i h; cases h) h
+          · exact inv_log _ _ (by intro i h; cases h) h
   case sleep l d => exact inv_log _ _ (by intro i h; cases h) h
   case control c => cases c <;> exact h
 
